@@ -6,6 +6,8 @@
       array, into the region of its own block coordinates; a task never reads an array it writes;
  (ii) with C05 (distinct tasks of an operation write disjoint regions) this gives order-, repetition- and
       placement-independence of the stored values -- the implication is the stated argument, (i) and C05 are decided;
+ (iv) the create-arrays task (real create_zarr_array -> LazyZarrArray.create(mode) -> open_zarr_v3_array on a model of the zarr hierarchy
+      API) is open-or-create from every pre-state of the store and never discards chunks already written, however often it re-runs;
  (iii) random arrays: the Philox key of a block is root_seed + offset(block_id): equal for equal block ids, distinct for
       distinct blocks of the array, and a valid key for every 128-bit root seed.
 """
@@ -230,6 +232,89 @@ def random_keys(nb0, nb1, b0, b1, c0, c1, seed):
     sx.require(sx.sor(same_block, k1 != k3), "distinct-blocks-share-a-stream", f"blocks ({b0},{b1}) and ({c0},{c1})")
 
 
+def create_preserves(struct, sub, g, e0, e1, w0, w1):
+    """the create-arrays task (real create_zarr_arrays pipeline -> create_zarr_array -> LazyZarrArray.create -> open_storage_array ->
+    open_zarr_v3_array) from an ARBITRARY pre-state of the store (each node of the array may or may not exist, with or without
+    written chunks), then again after downstream tasks wrote chunks: array creation is open-or-create, never truncate"""
+    import numpy as np
+
+    import cubed.storage.stores.zarr_python_v3 as zv3
+    from cubed.core.plan import create_zarr_arrays
+    from cubed.storage.zarr import lazy_zarr_array
+    from stubs import zarr_model as zm
+
+    st, sb = sx.conc(struct), sx.conc(sub)
+    path = [None, "sub"][sb]
+    root = zm._join(path)
+    fields = ["n", "total"] if st else []
+    dtype = np.dtype([("n", "i8"), ("total", "f8")]) if st else np.dtype("float64")
+    ex = [e0 == 1, e1 == 1]
+    wr = [w0 == 1, w1 == 1]
+    nodes = {}
+    if st:
+        sx.assume(sx.implies(sx.sor(ex[0], ex[1]), g == 1))  # a field array exists only inside an existing group
+        nodes[root] = zm.Node("group", None, g == 1)
+        arrays = [zm._join(root, f) for f in fields]
+    else:
+        sx.assume(sx.sand(e1 == 0, w1 == 0, g == 0))
+        arrays = [root]
+    for i, p in enumerate(arrays):
+        sx.assume(sx.implies(wr[i], ex[i]))  # chunks can only have been written to an existing array
+        nodes[p] = zm.Node("array", None, ex[i])
+    model = zm.ZarrModel(nodes)
+    written_before = {p: wr[i] for i, p in enumerate(arrays)}
+    for i, p in enumerate(arrays):
+        # the token of a pre-state node is "written" iff w_i (decided here so that the token is concrete on every path)
+        nodes[p].token = "written" if bool(wr[i]) else None
+
+    lza = lazy_zarr_array("memory://verif", (4,), dtype, (2,), path=path, compressors=None)
+    op = create_zarr_arrays([lza], 10**6, 100)
+    saved = zv3.zarr
+    zv3.zarr = model
+    try:
+        def run_create():
+            for m in op.pipeline.mappable:
+                op.pipeline.function(m, config=op.pipeline.config)
+
+        def survivors(label):
+            for i, p in enumerate(arrays):
+                n = model.nodes.get(p)
+                sx.require(n is not None and n.kind == "array" and bool(n.exists), "array-missing-after-the-create-task", f"{label}: {p}")
+            opened = lza.open()
+            got = [opened[f] for f in fields] if st else [opened]
+            sx.require([a.path for a in got] == arrays, "open-after-create-returns-other-arrays", f"{label}")
+            return got
+
+        try:
+            run_create()
+        except (ValueError, FileExistsError, FileNotFoundError, KeyError) as exn:
+            raise sx.Violated("create-task-fails-on-a-store-state-left-by-an-earlier-execution", f"{type(exn).__name__}: {exn}") from exn
+        got = survivors("first execution")
+        for i, a in enumerate(got):
+            sx.require(sx.implies(written_before[arrays[i]], a.token == "written"), "stored-chunks-lost-by-the-create-task",
+                       f"{arrays[i]} held written chunks before the create task ran and is empty afterwards; store operations: {model.log}")
+        # downstream tasks write chunks into every array; then a retry / backup twin of the create task runs (again and again)
+        for p in arrays:
+            model.nodes[p].token = "written"
+        for rep in (1, 2):
+            try:
+                run_create()
+            except (ValueError, FileExistsError, FileNotFoundError, KeyError) as exn:
+                raise sx.Violated("duplicate-create-task-fails", f"{type(exn).__name__}: {exn}") from exn
+            got = survivors(f"duplicate {rep}")
+            for i, a in enumerate(got):
+                sx.require(a.token == "written", "stored-chunks-lost-by-a-duplicated-create-task",
+                           f"{arrays[i]}: chunks written by downstream tasks are gone after the create task ran again; store operations: {model.log}")
+    finally:
+        zv3.zarr = saved
+
+
+def _zarr_model_validate():
+    from stubs import zarr_model as zm
+
+    return zm.validate()
+
+
 def obligations(tier):
     import cubed.primitive.blockwise as pb
     import cubed.random as cr
@@ -253,6 +338,27 @@ def obligations(tier):
                  setup=rng_validate, functions=[cr._random, cr.random, cu.block_id_to_offset], wall_s=wall,
                  bounds="block grids up to 4x4, every pair of block ids, every 128-bit root seed (the range of random.getrandbits(128))",
                  stubs=["Philox/Generator recording stub (key range as NumPy)"]))
+
+    import cubed.core.plan as cp
+    import cubed.storage.store as cst
+    import cubed.storage.stores.zarr_python_v3 as zv3
+    import cubed.storage.zarr as csz
+
+    CV = [("struct", 0, 1), ("sub", 0, 1), ("g", 0, 1), ("e0", 0, 1), ("e1", 0, 1), ("w0", 0, 1), ("w1", 0, 1)]
+    o.append(Obl("create-never-truncates", create_preserves, CV, setup=_zarr_model_validate,
+                 functions=[cp.create_zarr_arrays, cp.create_zarr_array, csz.LazyZarrArray.create, csz.LazyZarrArray.open, cst.open_storage_array, zv3.open_zarr_v3_array,
+                            zv3.ZarrV3ArrayGroup.__getitem__], wall_s=wall,
+                 bounds="plain and structured (2-field) dtypes, array at the store root or under a path; every pre-state of the store (group / each field array present or not, "
+                        "holding written chunks or not) as solver variables; the create task run once, then twice more after downstream writes",
+                 outside="the zarr library itself (model validated against the installed zarr on 120 operation x pre-state combinations at start); obstore / zarrs back ends",
+                 stubs=["stubs/zarr_model.py standing in for the `zarr` module inside cubed.storage.stores.zarr_python_v3"],
+                 witness_rule=lambda m: m["e0"] == 1 and m["w0"] == 1))
+
+    def ctwin(**kw):
+        create_preserves(**kw)
+        raise sx.Violated("reached-end")
+
+    o.append(Obl("twin:create-never-truncates", ctwin, CV, setup=_zarr_model_validate, twin_of="create-never-truncates", wall_s=wall))
 
     def twin(**kw):
         task_purity("concat", **kw)
